@@ -7,6 +7,7 @@ mod lattice;
 mod stateops;
 mod measure;
 mod circuit;
+mod param;
 mod util;
 
 use serde_json::{json, Value};
@@ -24,6 +25,7 @@ fn dispatch(case: &Value) -> Value {
         "state" => stateops::run_state(case),
         "measure" => measure::run_measure(case),
         "circuit" => circuit::run_circuit(case),
+        "param" => param::run_param(case),
         "sched" => sched(case),
         other => json!({"r": "harness_error", "e": format!("unknown op {}", other)}),
     }
